@@ -1,7 +1,7 @@
 """C04 - simplify preserves the sample genealogy and sample genotypes exactly (structural clauses)."""
 from __future__ import annotations
 
-from . import scopes
+from . import scopes, lib_kind
 import re
 
 from . import lib_variant, lib_module, lib_py, lib_guards, lib_gate, lib_schema, lib_mem
@@ -32,6 +32,7 @@ def run(ctx):
     lib_guards.presence(ctx, seen, funcs=funcs, P=P)
     lib_py.kw_forward(ctx, py, mods=("trees", "tables"), only=ps)
     lib_py.unused_params(ctx, py, mods=("trees", "tables"), only=ps)
+    lib_kind.py_lints(ctx, py, mods=("trees", "tables"), only=ps)
     lib_py.ll_positional(ctx, py, P, only=ps)
     lib_py.gate_before_return(ctx, py, ["simplify"])
     rule = "OPTION-CONSUMED"
